@@ -19,12 +19,24 @@ theorem spec_promote_double (R : Rounding) (op : BinOp) (a b : Num) (h : isDbl a
     simp [specBin, absNum, XVal.toRat?, promote, XVal.ty, Ty.rank, XVal.toDbl, asD, ofInt, ofDec]
 
 
-theorem addsubmul_promote_double (R : Rounding) (a b : Num) (h : isDbl a = true ∨ isDbl b = true) :
+/-- no integer operand overflows binary64 (Python raises OverflowError there; not generated) -/
+def intsFinite (R : Rounding) (a b : Num) : Prop :=
+  (∀ n, a = .int n → Dbl.isInf (ofInt R n) = false) ∧ (∀ n, b = .int n → Dbl.isInf (ofInt R n) = false)
+
+theorem intOvf_of_finite (R : Rounding) (a b : Num) (hi : intsFinite R a b) :
+    intOvf R a = false ∧ intOvf R b = false := by
+  constructor
+  · cases a <;> simp [intOvf]; exact hi.1 _ rfl
+  · cases b <;> simp [intOvf]; exact hi.2 _ rfl
+
+theorem addsubmul_promote_double (R : Rounding) (a b : Num) (h : isDbl a = true ∨ isDbl b = true)
+    (hi : intsFinite R a b) :
     opAdd R a b = opAdd R (.dbl (asD R a)) (.dbl (asD R b)) ∧
     opSub R a b = opSub R (.dbl (asD R a)) (.dbl (asD R b)) ∧
     opMul R a b = opMul R (.dbl (asD R a)) (.dbl (asD R b)) := by
-  cases a <;> cases b <;> simp [isDbl] at h <;>
-    simp [opAdd, opSub, opMul, coerce, asDec, liftF, asD]
+  obtain ⟨hA, hB⟩ := intOvf_of_finite R a b hi
+  cases a <;> cases b <;> simp [isDbl] at h <;> simp [intOvf] at hA hB <;>
+    simp [opAdd, opSub, opMul, coerce, mixedOverflow, intOvf, isFloat, asDec, liftF, asD, hA, hB]
 
 theorem isZero_ofInt (R : Rounding) (hF : Faithful R) (n : Int) :
     Dbl.isZero (ofInt R n) = (n == 0) := by
@@ -91,12 +103,14 @@ theorem zeroIsNeg_ofInt_zero (R : Rounding) : zeroIsNeg (.dbl (ofInt R 0)) = fal
   simp [ofInt, rnd, zeroIsNeg]
 
 theorem div_promote_double (R : Rounding) (hF : Faithful R) (v : Ver) (a b : Num)
-    (h : isDbl a = true ∨ isDbl b = true) :
+    (h : isDbl a = true ∨ isDbl b = true) (hi : intsFinite R a b) :
     opDiv R v a b = opDiv R v (.dbl (asD R a)) (.dbl (asD R b)) := by
   have hz := isZero_ofInt R hF
   have hs := signOf_ofInt R hF
-  cases a <;> cases b <;> simp [isDbl] at h <;>
-    simp [opDiv, coerce, asDec, liftF, asD, isZero, isFloat, hz, hs, zeroIsNeg_flt, signOf_flt]
+  obtain ⟨hA, hB⟩ := intOvf_of_finite R a b hi
+  cases a <;> cases b <;> simp [isDbl] at h <;> simp [intOvf] at hA hB <;>
+    simp [opDiv, coerce, mixedOverflow, intOvf, isFloat, asDec, liftF, asD, isZero, isFloat, hz, hs, zeroIsNeg_flt,
+      signOf_flt, hA, hB]
   · rename_i d n
     by_cases hn : n = 0
     · subst hn; simp [zeroIsNeg, ofInt, rnd]
@@ -112,18 +126,15 @@ theorem isNan_ofInt (R : Rounding) (hF : Faithful R) (n : Int) : Dbl.isNan (ofIn
     simp only [hq, if_false]
     cases h : R.r64 n <;> simp_all [Dbl.isNan]
 
-/-- no integer operand overflows binary64 (Python raises OverflowError there; not generated) -/
-def intsFinite (R : Rounding) (a b : Num) : Prop :=
-  (∀ n, a = .int n → Dbl.isInf (ofInt R n) = false) ∧ (∀ n, b = .int n → Dbl.isInf (ofInt R n) = false)
-
 theorem idiv_promote_double (R : Rounding) (hF : Faithful R) (a b : Num)
     (h : isDbl a = true ∨ isDbl b = true) (hi : intsFinite R a b) :
     opIdiv R a b = opIdiv R (.dbl (asD R a)) (.dbl (asD R b)) := by
   have hz := isZero_ofInt R hF
   have hn := isNan_ofInt R hF
-  cases a <;> cases b <;> simp [isDbl] at h <;>
-    simp [opIdiv, coerce, asDec, asD, isZero, numIsInf, numIsNan, hz, hn] <;> (try rfl)
-  · rename_i n d; simp [hi.1 n rfl]; rfl
+  obtain ⟨hA, hB⟩ := intOvf_of_finite R a b hi
+  cases a <;> cases b <;> simp [isDbl] at h <;> simp [intOvf] at hA hB <;>
+    simp [opIdiv, coerce, mixedOverflow, intOvf, isFloat, asDec, asD, isZero, numIsInf, numIsNan, hz, hn, hA, hB] <;>
+    (try rfl)
 
 
 theorem mod_promote_double (R : Rounding) (hF : Faithful R) (v : Ver) (a b : Num)
@@ -132,11 +143,12 @@ theorem mod_promote_double (R : Rounding) (hF : Faithful R) (v : Ver) (a b : Num
     opMod R v a b = opMod R v (.dbl (asD R a)) (.dbl (asD R b)) := by
   have hz := isZero_ofInt R hF
   have hn := isNan_ofInt R hF
-  cases a <;> cases b <;> simp [isDbl] at h <;>
+  obtain ⟨hA, hB⟩ := intOvf_of_finite R a b hi
+  cases a <;> cases b <;> simp [isDbl] at h <;> simp [intOvf] at hA hB <;>
     simp [trigF06t, floatTyped, isFlt, isDbl, coerce, numIsInf, isZero] at hk <;>
-    simp [opMod, coerce, asDec, asD, isZero, isFloat, numIsInf, numIsNan, liftF, hz, hn] <;> (try rfl)
+    simp [opMod, coerce, mixedOverflow, intOvf, isFloat, asDec, asD, isZero, isFloat, numIsInf, numIsNan, liftF, hz, hn,
+      hA, hB] <;> (try rfl)
   · rename_i n d
-    simp only [hi.1 n rfl, and_true]
     by_cases hz' : Dbl.isZero d = true
     · simp [hz']
     · by_cases hc : Dbl.isInf d = true ∧ ¬ n = 0
@@ -144,8 +156,6 @@ theorem mod_promote_double (R : Rounding) (hF : Faithful R) (v : Ver) (a b : Num
         · simp [hz', hc, hv]
         · exact absurd (hk hv hc.1) hc.2
       · simp only [hz', hc, if_false]
-  · rename_i d n
-    simp [hi.2 n rfl]
   · rename_i x d
     by_cases hz' : Dbl.isZero d = true
     · simp [hz']
@@ -155,7 +165,6 @@ theorem mod_promote_double (R : Rounding) (hF : Faithful R) (v : Ver) (a b : Num
         · have := hk hv hc.1.1 hc.1.2
           rw [hc.2] at this; cases this
       · simp only [hz', hc, if_false]
-
 
 /-- the float payload of an operand is well-formed -/
 def numWf : Num → Prop
@@ -181,7 +190,7 @@ theorem addsubmul_dbl_eq_spec (R : Rounding) (x y : Dbl) :
     (opSub R (.dbl x) (.dbl y)).map absNum = specBin R .sub (.double x) (.double y) ∧
     (opMul R (.dbl x) (.dbl y)).map absNum = specBin R .mul (.double x) (.double y) := by
   refine ⟨?_, ?_, ?_⟩ <;>
-    simp [opAdd, opSub, opMul, coerce, asDec, liftF, fadd, fsub, fmul, specBin, promote, XVal.ty, Ty.rank,
+    simp [opAdd, opSub, opMul, coerce, mixedOverflow, intOvf, isFloat, asDec, liftF, fadd, fsub, fmul, specBin, promote, XVal.ty, Ty.rank,
       XVal.toRat?, floatBin, XVal.toDbl, mkFloating, absNum, Except.map, pure, Except.pure]
 
 theorem trigF06x_promote (R : Rounding) (hF : Faithful R) (v : Ver) (a b : Num)
@@ -190,7 +199,7 @@ theorem trigF06x_promote (R : Rounding) (hF : Faithful R) (v : Ver) (a b : Num)
   have hz := isZero_ofInt R hF
   have hn := isNan_ofInt R hF
   cases a <;> cases b <;> simp [isDbl] at h <;>
-    simp [trigF06x, coerce, asD, numIsInf, numIsNan, isZero, hz, hn]
+    simp [trigF06x, coerce, mixedOverflow, intOvf, isFloat, asD, numIsInf, numIsNan, isZero, hz, hn]
   · rename_i n d; simp [hi.1 n rfl]
   · rename_i d n; simp [hi.2 n rfl]
 
@@ -205,10 +214,10 @@ theorem double_ops_eq_spec (R : Rounding) (hF : Faithful R) (v : Ver) (op : BinO
   rw [spec_promote_double R op a b h]
   have hw := asD_wf R hF a hwa
   cases op with
-  | add => simp only [modelBin]; rw [(addsubmul_promote_double R a b h).1]; exact (addsubmul_dbl_eq_spec R _ _).1
-  | sub => simp only [modelBin]; rw [(addsubmul_promote_double R a b h).2.1]; exact (addsubmul_dbl_eq_spec R _ _).2.1
-  | mul => simp only [modelBin]; rw [(addsubmul_promote_double R a b h).2.2]; exact (addsubmul_dbl_eq_spec R _ _).2.2
-  | div => simp only [modelBin]; rw [div_promote_double R hF v a b h]; exact div_dbl_eq_spec R v _ _ hw
+  | add => simp only [modelBin]; rw [(addsubmul_promote_double R a b h hi).1]; exact (addsubmul_dbl_eq_spec R _ _).1
+  | sub => simp only [modelBin]; rw [(addsubmul_promote_double R a b h hi).2.1]; exact (addsubmul_dbl_eq_spec R _ _).2.1
+  | mul => simp only [modelBin]; rw [(addsubmul_promote_double R a b h hi).2.2]; exact (addsubmul_dbl_eq_spec R _ _).2.2
+  | div => simp only [modelBin]; rw [div_promote_double R hF v a b h hi]; exact div_dbl_eq_spec R v _ _ hw
   | idiv => simp only [modelBin]; rw [idiv_promote_double R hF a b h hi]; exact idiv_dbl_eq_spec R _ _
   | mod =>
     simp only [modelBin]; rw [mod_promote_double R hF v a b h hi hk]
